@@ -388,6 +388,12 @@ def C17(ctx):
                         "the serde JSON of the BDD/SDD/vtree serialisers is read by TLC itself",
                         "s-expression variable names come from a fixed list whose byte order is a constant of the specification; no True/False constants (todo!() in the parser's consumer)",
                         "DIMACS inputs have at least one variable and one clause and no empty clause for the expression parser (the code unwraps)"]
+    # design level: the BDD serialiser's walk (memo: node -> index, complement bit taken from the edge) is faithful for every DAG with
+    # complement edges and every root; the variant that replays the first-seen pointer must fail
+    model_check(ctx, "SerAlgo", "MC_SerAlgo.cfg", "SerAlgo: all 1 503 DAGs of <= 3 nodes over 3 levels x every root pointer x all assignments", workers=4)
+    model_check(ctx, "SerAlgo", "MC_SerAlgo_freeze.cfg", "regression: a memo that freezes the first-seen complement bit is not faithful", workers=2, expect_violation=True)
+    if not ctx.quick:
+        model_check(ctx, "SerAlgo", "MC_SerAlgo_4.cfg", "SerAlgo: all 42 687 DAGs of <= 4 nodes over 3 levels", workers=8)
     n = 4 if ctx.quick else 30 * TH
     record_and_validate(ctx, [("ser_%d" % i, ["record", "ser", "--seed", ctx.seed * 1000 + i, "--segments", 50 if ctx.quick else 120,
                                               "--nmax", 4 + (i % 2)]) for i in range(n)], "TraceSer", "TraceSer.cfg")
